@@ -12,7 +12,7 @@
    [≅]: deep equality with nil and empty containers identified; [dyn_ty]: reflect.TypeOf. *)
 From Coq Require Import List Bool Arith NArith ZArith String Ascii.
 From Eino Require Import Base.Util Base.Universe Model.Ser Model.SerCheckpoint
-     Proofs.Ser Proofs.SerLoud Proofs.SerTop.
+     Proofs.Ser Proofs.SerLoud Proofs.SerTop Proofs.SerRefl.
 Import ListNotations.
 
 (* 1. Round trip: whatever the encoder accepts comes back equivalent, with the identical
@@ -151,22 +151,32 @@ Proof. exact invalid_utf8_refuted. Qed.
 Print Assumptions invalid_utf8_refuted.
 
 (* ------------------------------------------------------------------ non-vacuity *)
+(* (each side condition is decided by a closed boolean computation; see Proofs/SerRefl.v) *)
 (* the hypotheses of 1, 3, 4 and 5 hold together for a checkpoint with a DAG channel, a
    Pregel channel, a pending input, a state behind a pointer in [any], and a nested
    checkpoint; the encoder accepts it and the decoder returns it (up to nil ~ empty) *)
-Example checkpoint_hypotheses_satisfiable :
-  str_nodup (map fst (ckpt_reg [])) = true /\ env_names_ok (ckpt_senv []) = true /\
-  has_type (ckpt_senv []) sample_checkpoint t_checkpoint_ptr = true /\
-  (exists oi, enc_c fixed (ckpt_reg []) sample_checkpoint = Ok oi /\
-              is_ok (dec_c fixed (ckpt_reg []) (ckpt_senv []) oi) = true).
-Proof. repeat split; try (vm_compute; reflexivity). eexists. split; vm_compute; reflexivity. Qed.
+Example checkpoint_names_unique : str_nodup (map fst (ckpt_reg [])) = true.
+Proof. vm_compute. reflexivity. Qed.
+Example checkpoint_field_names_unique : env_names_ok (ckpt_senv []) = true.
+Proof. vm_compute. reflexivity. Qed.
+Example checkpoint_sample_typed : has_type (ckpt_senv []) sample_checkpoint t_checkpoint_ptr = true.
+Proof. vm_compute. reflexivity. Qed.
+Example checkpoint_sample_accepted :
+  is_ok (enc_c fixed (ckpt_reg []) sample_checkpoint) = true /\
+  is_ok (do oi <- enc_c fixed (ckpt_reg []) sample_checkpoint; dec_c fixed (ckpt_reg []) (ckpt_senv []) oi) = true.
+Proof. split; vm_compute; reflexivity. Qed.
 Example checkpoint_sample_safe : safe sample_checkpoint.
-Proof. unfold safe. vm_compute. repeat constructor. Qed.
+Proof. apply safeb_safe. vm_compute. reflexivity. Qed.
 Example checkpoint_sample_registered : registered (ckpt_reg []) sample_checkpoint.
-Proof. unfold registered. vm_compute. repeat constructor; discriminate. Qed.
+Proof. apply registeredb_registered. vm_compute. reflexivity. Qed.
+Example checkpoint_sample_encodable : encodable lit lit jenc_c kenc_c sample_checkpoint.
+Proof. apply encodableb_c_encodable. vm_compute. reflexivity. Qed.
 (* the hypotheses of 2: a registered struct holding a slice of an unregistered named type *)
 Example unsupported_nonvacuous :
   let v := VStruct 0 [("F"%string, VSlice (TNamed 8 BInt) None)] in
   In (TNamed 8 BInt) (looked_up v) /\ rm_lookup w_a_reg (TNamed 8 BInt) = None /\
   enc_c fixed w_a_reg v = Err E_UNKNOWN_TYPE.
-Proof. vm_compute. repeat split; auto. Qed.
+Proof.
+  cbv zeta. split; [cbn [looked_up flat_map snd app stripped strip_ptr]; right; left; reflexivity|].
+  split; vm_compute; reflexivity.
+Qed.
